@@ -53,12 +53,23 @@ vars == <<pb, it>>
 RECURSIVE Pow2(_)
 Pow2(k) == IF k = 0 THEN One ELSE IF k > 0 THEN QMul(R(2), Pow2(k - 1)) ELSE QMul(Half, Pow2(k + 1))
 
-\* stopping tolerance of the machine (tol = 2^-6): |s_k|^2 <= Tol2 |s_0|^2
-Tol2 == Q(1, 4096)
+\* comparisons through the gcd-aware difference (RLe multiplies the denominators: 32-bit overflow on scaled data)
+QLe(a, b) == QSub(a, b)[1] <= 0
+QLt(a, b) == QSub(a, b)[1] < 0
+
+\* stopping tolerance of the machine (tol = 2^-8): |s_k|^2 <= Tol2 |s_0|^2
+Tol2 == Q(1, 65536)
+LeTol2(a) == a[1] = 0 \/ (a[2] \div a[1]) >= Tol2[2]          \* a <= Tol2 for a >= 0, without products (32 bit)
 DefaultMaxDimInv == 2000
 
 \* ---- scale pairs <<ea, eb>> ----------------------------------------------------------------------------
-ScaleChecked == { <<0, 0>>, <<0, -8>>, <<-4, -4>>, <<2, 2>>, <<-2, 0>>, <<1, -2>> }
+ScaleChecked == { <<0, 0>>, <<0, -3>>, <<-2, -2>>, <<2, 2>>, <<-2, 0>>, <<1, -2>> }
+\* pairs that make the data tiny in ABSOLUTE terms (normal residual of the start below tol): exact 32-bit rationals allow them
+\* only for problems that conjugate gradients solve in one step (A^T A a multiple of the identity)
+\* preconditioned two-step runs: the exact iterates of the second step have denominators ~ 3 10^4 (squared in gamma): no room
+\* for a scale factor in 32 bits; their scale law is SolutionScales / the one-step family A = Orth P (PcOneStep) with ScaleTiny
+ScalePre == { <<0, 0>> }
+ScaleTiny == { <<0, -10>>, <<-5, -5>>, <<0, 0>> }
 \* what the replay runs in addition (magnitudes a cfg / 32-bit integer cannot hold: exponents only).
 \* |eb - ea| <= 20: the size of the solution stays below 1/tol (CGLS / PCGLS give up when |x| tol >= 1, see GuardSilent)
 ScaleEmitted == << <<0, -40>>, <<-40, -40>>, <<40, 40>>, <<-20, -40>>, <<40, 20>>, <<-20, 0>>, <<0, -30>>, <<30, 40>>, <<-40, -30>> >>
@@ -68,6 +79,8 @@ Pb(nm, A, b, x0, sh) == [nm |-> nm, A |-> MR(A), b |-> VR(b), x0 |-> VR(x0), shi
 Sq  == << <<1, 1>>, <<0, 1>> >>
 Tl  == << <<1, 0>>, <<1, 1>>, <<0, 1>> >>
 Sq2 == << <<2, 1>>, <<1, -1>> >>
+Orth == << <<1, 1>>, <<1, -1>> >>
+OneStep == { Pb("orth0", Orth, <<1, 3>>, <<0, 0>>, 0), Pb("orth1", Orth, <<1, 3>>, <<1, 0>>, 1) }
 Bases == { Pb("sq0", Sq, <<1, 2>>, <<0, 0>>, 0),
            Pb("tl0", Tl, <<1, 0, 2>>, <<1, -1>>, 0),
            Pb("sq1", Sq, <<2, -1>>, <<0, 1>>, 1),
@@ -90,9 +103,17 @@ CgProblems ==
     { [kind |-> "cg", solver |-> "cgls", base |-> bs, pre |-> NoPre, thr |-> "default", rep |-> 1, sc |-> sc, x0 |-> bs.x0]
         : bs \in Bases, sc \in ScaleChecked }
     \cup
-    { [kind |-> "cg", solver |-> "pcgls", base |-> bs, pre |-> pr, thr |-> rt[1], rep |-> rt[2], sc |-> sc, x0 |-> bs.x0]
-        : bs \in Bases, pr \in Pres, rt \in Routes,
-          sc \in (IF rt = <<"default", 1>> THEN ScaleChecked ELSE { <<0, 0>>, <<0, -8>> }) }
+    { [kind |-> "cg", solver |-> "cgls", base |-> bs, pre |-> NoPre, thr |-> "default", rep |-> 1, sc |-> sc, x0 |-> bs.x0]
+        : bs \in OneStep, sc \in ScaleTiny }
+    \cup
+    { [kind |-> "cg", solver |-> "pcgls", pre |-> pr, thr |-> rt[1], rep |-> 1, sc |-> sc, x0 |-> VR(<<0, 0>>),
+       base |-> [nm |-> "orthp", A |-> QMM(MR(Orth), pr.P), b |-> VR(<<1, 3>>), x0 |-> VR(<<0, 0>>), shift |-> Zero]]
+        : pr \in Pres, sc \in ScaleTiny, rt \in { <<"default", 1>>, <<"n", 1>> } }
+    \cup
+    UNION { { [kind |-> "cg", solver |-> "pcgls", base |-> bs, pre |-> pr, thr |-> rt[1], rep |-> rt[2], sc |-> sc, x0 |-> bs.x0]
+                : bs \in (IF rt = <<"default", 999>> /\ Level < 2 THEN { q \in Bases : q.nm = "sq0" } ELSE Bases),     \* 1998 unknowns: the explicit inverse is slow
+                  pr \in Pres, sc \in (IF rt = <<"default", 1>> THEN ScalePre ELSE { <<0, 0>> }) }
+            : rt \in Routes }
 
 \* the problem of the run `which` (base: as given; sc: in the units of pb.sc)
 Prob(p, which) ==
@@ -116,7 +137,7 @@ StartRun(p, which) ==
         g  == QNorm2(s)
     IN [x |-> q.x0, r |-> r, s |-> s, p |-> s, gamma |-> g, gamma0 |-> g, k |-> 0,
         \* the loop is entered unconditionally (flag = 0); deviation: "the start already solves the normal equations" tested absolutely
-        stop |-> (AbsoluteStop /\ RLe(g, Tol2))]
+        stop |-> (AbsoluteStop /\ LeTol2(g))]
 
 StepRun(p, which, st) ==
     IF st.stop THEN st
@@ -132,7 +153,7 @@ StepRun(p, which, st) ==
                      g1    == QNorm2(s1)
                      p1    == F(QAxpy(s1, QDiv(g1, st.gamma), st.p))
                  IN [x |-> x1, r |-> r1, s |-> s1, p |-> p1, gamma |-> g1, gamma0 |-> st.gamma0, k |-> st.k + 1,
-                     stop |-> RLe(g1, QMul(Tol2, st.gamma0))]
+                     stop |-> LeTol2(QDiv(g1, st.gamma0))]
 
 \* ---- kind post: problems in postcondition form -------------------------------------------------------------
 \* proximal gradient: minimise 1/2 |A x - b|^2 + h(x), h = th |x|_1 / indicator of [lo, up]^2 / of the orthant;
@@ -181,8 +202,15 @@ Start ==
     /\ it' = IF pb.kind = "cg" THEN [ph |-> "run", base |-> StartRun(pb, "base"), sc |-> StartRun(pb, "sc")] ELSE [ph |-> "done"]
     /\ UNCHANGED pb
 
+\* 32-bit rationals: a run whose search direction has grown beyond MagBound is not followed further (its start state, the
+\* closed-form solution and the laws that do not need the recurrence are still checked and emitted)
+MagBound == 20000
+SmallV(v) == \A i \in 1..Len(v) : Abs(v[i][1]) <= MagBound /\ v[i][2] <= MagBound
+Small(st) == SmallV(st.p) /\ SmallV(st.x) /\ SmallV(st.r)
+
 Iterate ==
     /\ it.ph = "run"
+    /\ Small(it.base) /\ Small(it.sc)
     /\ ~(it.base.stop /\ it.sc.stop)
     /\ it.base.k < 4 /\ it.sc.k < 4
     /\ it' = [ph |-> "run", base |-> StepRun(pb, "base", it.base), sc |-> StepRun(pb, "sc", it.sc)]
@@ -232,10 +260,10 @@ SolutionScales ==
 
 \* CGLS / PCGLS also stop when |x| tol >= 1 ("x seems to diverge", inherited from the SOL code): the instance stays inside
 GuardSilent ==
-    IsCgRun => \A w \in {"base", "sc"} : RLt(QMul(Tol2, QNorm2(it[w].x)), One)
+    IsCgRun => \A w \in {"base", "sc"} : (QNorm2(it[w].x)[1] \div QNorm2(it[w].x)[2]) < Tol2[2]              \* |x|^2 < 1 / tol^2 (Tol2 = 1 / Tol2[2])
 
 \* the start does not solve the problem (the runs are not trivial) and the problems are not already tiny in absolute terms
-NonTrivial == IsCgRun => (it.base.gamma0 # Zero /\ RLt(Tol2, it.base.gamma0))
+NonTrivial == IsCgRun => (it.base.gamma0 # Zero /\ ~LeTol2(it.base.gamma0))
 
 \* replication: the block-diagonal problem of rep copies has the replicated solution (checked for 2 copies)
 BlockLaw ==
@@ -271,12 +299,12 @@ PostScalingLaw ==
 
 \* ---- emission -----------------------------------------------------------------------------------------------
 EmitCg ==
-    (Emit /\ Terminated) =>
+    (Emit /\ IsCgRun /\ it.base.k = 0) =>
         PrintT("@@CASE " \o ToJson([kind |-> "cgscale", solver |-> pb.solver, name |-> pb.base.nm, A |-> pb.base.A, b |-> pb.base.b,
                                     x0 |-> pb.base.x0, shift |-> pb.base.shift, m |-> Len(pb.base.A), n |-> Len(pb.x0),
                                     pre |-> pb.pre.nm, P |-> pb.pre.P, psym |-> pb.pre.sym, thr |-> pb.thr, rep |-> pb.rep,
-                                    above |-> Above(pb), sc |-> pb.sc, k |-> it.base.k,
-                                    xsol |-> CgSolution(Prob(pb, "base")), xsol_sc |-> it.sc.x,
+                                    above |-> Above(pb), sc |-> pb.sc,
+                                    xsol |-> CgSolution(Prob(pb, "base")), xsol_sc |-> CgSolution(Prob(pb, "sc")),
                                     scales |-> ScaleEmitted, tol2 |-> Tol2]) \o " @@END")
 EmitPost ==
     (Emit /\ pb.kind = "post" /\ it.ph = "done") =>
